@@ -261,8 +261,23 @@ fn slot() -> BoxedStrategy<u8> {
 fn fslot() -> BoxedStrategy<u8> {
     (0u8..FSLOTS as u8).boxed()
 }
+/// long texts of multi-byte characters at varying byte alignments: error messages quote caller
+/// input, and anything that cuts or copies such a message by bytes must respect char boundaries
+fn long_mb() -> BoxedStrategy<String> {
+    (0usize..4, prop::sample::select(vec!['é', '€', '😀', 'ß', '漢']), 60usize..160)
+        .prop_map(|(pad, ch, n)| {
+            let mut s = "x".repeat(pad);
+            for _ in 0..n {
+                s.push(ch);
+            }
+            s
+        })
+        .boxed()
+}
+
 fn txt() -> BoxedStrategy<Txt> {
     prop_oneof![
+        1 => long_mb().prop_map(Txt::S),
         1 => Just(Txt::Null),
         1 => Just(Txt::Bad),
         6 => prop::sample::select(vec!["a", "b", "dis", "id", "site", "x y", "", "kW", "m", "°F", "New_York", "UTC", "Nowhere", "Calcutta", "Foo", "c"]).prop_map(|s| Txt::S(s.to_string())),
@@ -283,6 +298,12 @@ fn doc_text() -> BoxedStrategy<Txt> {
     prop_oneof![
         4 => small_value().prop_map(|v| Txt::S(crate::refimpl::zinc::write(&v, &mut crate::refimpl::zinc::Ch::canonical()))),
         4 => small_value().prop_map(|v| Txt::S(crate::refimpl::hayson::write(&v, &mut crate::refimpl::zinc::Ch::canonical()))),
+        1 => (long_mb(), 0u8..4).prop_map(|(s, k)| Txt::S(match k {
+            0 => format!("5{s}"),
+            1 => format!("{{\"_kind\":\"{s}\"}}"),
+            2 => format!("{{\"_kind\":\"number\",\"val\":1,\"unit\":\"{s}\"}}"),
+            _ => format!("[\"{s}\", {s}"),
+        })),
         2 => prop::sample::select(vec!["[1,2", "{a:", "ver:\"3.0\"\na\n1,2\n", "@", "{\"_kind\":\"nope\"}", "{\"_kind\":\"\\u0001\"}", "{\"_kind\":\"\\u0000\"}", "\u{1}", "5zz", "{\"_kind\":\"number\",\"val\":1,\"unit\":\"\\u0000\"}"]).prop_map(|s| Txt::S(s.to_string())),
         1 => txt(),
     ]
@@ -292,6 +313,7 @@ fn filter_text() -> BoxedStrategy<Txt> {
     prop_oneof![
         5 => prop::sample::select(vec!["a", "not a", "a == 1", "a != 1", "a < 2", "dis == \"x\"", "a and b", "a or b", "a->b", "(a", "==", "id == @r", "a == \"\u{1}\"", "b >= 1m"]).prop_map(|s| Txt::S(s.to_string())),
         2 => crate::gen::filter::filter_or(1, false).prop_map(|f| Txt::S(crate::gen::filter::print(&f, &[]).0)),
+        1 => long_mb().prop_map(|s| Txt::S(format!("a \"{s}\""))),
         1 => txt(),
     ]
     .boxed()
@@ -1453,4 +1475,74 @@ pub fn run_sequence(ops: &[Op]) -> (Verdict, Machine) {
     }
     m.teardown();
     (v, m)
+}
+
+
+// ---------------------------------------------------------------------------------------------
+// "the retrievable message is that of the latest failure" - checked without looking at wording:
+// the message read after [x (unread), y] must be the message read after [y] alone.
+
+fn failing_call(k: u8) {
+    unsafe {
+        match k % 7 {
+            0 => {
+                let _ = c_api::list::haystack_value_get_list_len(std::ptr::null_mut());
+            }
+            1 => {
+                let c = CString::new("[1, 2").unwrap();
+                let _ = c_api::zinc::haystack_value_from_zinc_string(c.as_ptr());
+            }
+            2 => {
+                let c = CString::new("nosuchunit").unwrap();
+                let _ = c_api::value::haystack_value_make_number_with_unit(1.0, c.as_ptr());
+            }
+            3 => {
+                let _ = c_api::value::haystack_value_make_date(2020, 13, 1);
+            }
+            4 => {
+                let c = CString::new("(a ==").unwrap();
+                let _ = c_api::filter::haystack_filter_parse(c.as_ptr());
+            }
+            5 => {
+                let v = Value::Marker;
+                let p = c_api::str::haystack_value_get_str_value(&v);
+                if !p.is_null() {
+                    c_api::str::haystack_string_destroy(p as *mut c_char);
+                }
+            }
+            _ => {
+                let c = CString::new("{\"_kind\":\"nope\"}").unwrap();
+                let _ = c_api::json::haystack_value_from_json_string(c.as_ptr());
+            }
+        }
+    }
+}
+
+pub fn error_message_is_latest(x: u8, y: u8) -> Verdict {
+    let read = || take_cstr(unsafe { c_api::err::last_error_message() });
+    let _ = read(); // start clean
+    failing_call(y);
+    let alone_y = read();
+    failing_call(x);
+    let alone_x = read();
+    if alone_x.is_none() || alone_y.is_none() {
+        return Verdict::fail("C17:error-message:missing", format!("failing call #{} or #{} left no error message", x % 7, y % 7));
+    }
+    if alone_x == alone_y {
+        return Verdict::Pass; // same wording: nothing to tell apart
+    }
+    failing_call(x); // not read
+    failing_call(y);
+    let after_both = read();
+    let again = read();
+    if after_both != alone_y {
+        return Verdict::fail(
+            "C17:error-message:not-the-latest-failure",
+            format!("after two failing calls the retrievable message is {after_both:?}; the last failing call alone reports {alone_y:?} (the earlier one: {alone_x:?})"),
+        );
+    }
+    if again.is_some() {
+        return Verdict::fail("C17:error-message:returned-twice", format!("{again:?}"));
+    }
+    Verdict::Pass
 }
